@@ -132,7 +132,7 @@ def run(plugin, prop, tier, seed, t0):
     checker_cmd = b['cmd'] + ' && lake env lean <#print axioms of each listed theorem>'
     leanchecker = None
     if tier == 'thorough' and b['ok']:
-        rc, out = common.sh(['lake', 'env', 'leanchecker', plugin.MODULE] + [em['module'] for em in extra_modules], cwd=common.LEAN, timeout=1800)
+        rc, out = common.sh(['lake', 'env', 'leanchecker', plugin.MODULE] + [ext.MODULE for ext in extensions], cwd=common.LEAN, timeout=1800)
         leanchecker = {'rc': rc, 'tail': out[-300:]}
         checker_cmd += ' && lake env leanchecker ' + ' '.join([plugin.MODULE] + [ext.MODULE for ext in extensions])
         if rc != 0:
